@@ -1684,11 +1684,13 @@ Section scmd_ind2.
   Hypothesis H20 : forall b, P (SSetTypeAhead b).
   Hypothesis H21 : forall h b, P (SHandlerAsk h b).
   Hypothesis H22 : forall h, P (SHandlerWait h).
+  Hypothesis H23 : forall (c k : nat), P (SConnect c k).
+  Hypothesis H24 : forall (c : nat) (p : Z), P (SEmit c p).
   Fixpoint scmd_ind2 (c : scmd) : P c :=
     match c with
     | SPush x a => H1 x a | SPushModal x a => H2 x a | SReplace x a => H3 x a | SSchedule x a => H4 x a
     | SCloseSig => H5 | SCloseNow => H6 | SRedrawSig => H7 | SSchedRedraw => H8 | SRaise => H9 | SExit => H10
-    | SForceQuit => H11 | SSysExit => H17 | SRedrawOther x => H18 x | SCloseOther x => H19 x | SGetUserInput => H12 | SSetTypeAhead b => H20 b | SHandlerAsk h b => H21 h b | SHandlerWait h => H22 h | SSetInputRequired b => H13 b | SSetAnswer a => H14 a | SMark m => H15 m
+    | SForceQuit => H11 | SSysExit => H17 | SRedrawOther x => H18 x | SCloseOther x => H19 x | SGetUserInput => H12 | SSetTypeAhead b => H20 b | SHandlerAsk h b => H21 h b | SHandlerWait h => H22 h | SConnect c k => H23 c k | SEmit c p => H24 c p | SSetInputRequired b => H13 b | SSetAnswer a => H14 a | SMark m => H15 m
     | SIfCount k t e =>
       H16 k t e
           ((fix go (l : list scmd) : Forall P l :=
@@ -1816,6 +1818,8 @@ Proof.
   - cbn [do_scmd]. sstep L.
   - cbn [do_scmd]. apply (std_handler_ask n L), HI.
   - cbn [do_scmd]. apply (std_handler_wait n L), HI.
+  - cbn [do_scmd]. sstep L.
+  - cbn [do_scmd]. sstep L.
 Qed.
 
 Lemma std_do_scmds : forall l s, Inv s -> std n s (do_scmds specs cn self cnt l).
@@ -2027,7 +2031,10 @@ Proof.
   destruct (hid =? H_RENDER)%nat; [apply std_process_screen, HI|].
   destruct (hid =? H_CLOSE)%nat; [apply std_close_screen, HI|].
   destruct (hid =? H_RECEIVED)%nat; [apply (std_input_received_handler n L), HI|].
-  destruct (10 <=? hid)%nat; [apply std_input_ready_handler, HI|]. sstep L.
+  destruct (10 <=? hid)%nat; [apply std_input_ready_handler, HI|].
+  destruct (3 <=? hid)%nat; [|sstep L].
+  (* a callback connected to one of the application's own signals: a command list, like input()'s *)
+  unfold custom_handler. sstep L; [sstep L|apply std_run_cmds; assumption].
 Qed.
 End Progs3.
 
@@ -2208,12 +2215,12 @@ Definition kx : str := [120%N]. Definition ky : str := [121%N].
 Definition scr (refresh show : list scmd) (inp : list (str * (list scmd * ret_val))) : screen_spec :=
   {| sc_setup := []; sc_refresh := refresh; sc_show := show; sc_closed := []; sc_input := inp;
      sc_input_default := ([], None); sc_prompt_none := false; sc_input_required := true;
-     sc_no_separator := false; sc_skip_check := false; sc_pages := 0; sc_answer0 := AnsNoAttr |}.
+     sc_no_separator := false; sc_skip_check := false; sc_pages := 0; sc_answer0 := AnsNoAttr; sc_custom := [] |}.
 (* a screen that never asks for input *)
 Definition quiet (refresh show : list scmd) : screen_spec :=
   {| sc_setup := []; sc_refresh := refresh; sc_show := show; sc_closed := []; sc_input := [];
      sc_input_default := ([], Some RProcessed); sc_prompt_none := false; sc_input_required := false;
-     sc_no_separator := false; sc_skip_check := false; sc_pages := 0; sc_answer0 := AnsNoAttr |}.
+     sc_no_separator := false; sc_skip_check := false; sc_pages := 0; sc_answer0 := AnsNoAttr; sc_custom := [] |}.
 Definition session (specl : list screen_spec) (typed : list (option str)) (acts : list saction) : list outcome * list event :=
   let '(os, st) := app_run_all (fun n => nth n specl default_spec) specl typed None false 2000 acts in
   (os, rev (trace st)).
@@ -2269,7 +2276,7 @@ Definition cx1_specs := [ quiet [SIfCount 1 [SPush 2 0] []] [];
                           {| sc_setup := []; sc_refresh := [SIfCount 1 [SPushModal 1 0] []]; sc_show := [SIfCount 1 [SCloseSig] []];
                              sc_closed := []; sc_input := []; sc_input_default := ([], Some RProcessed);
                              sc_prompt_none := false; sc_input_required := true; sc_no_separator := false;
-                             sc_skip_check := false; sc_pages := 0; sc_answer0 := AnsNoAttr |} ].
+                             sc_skip_check := false; sc_pages := 0; sc_answer0 := AnsNoAttr; sc_custom := [] |} ].
 Definition cx1_typed := [Some kx].
 Definition cx1 := session cx1_specs cx1_typed start.
 (* cx2: no screen twice; force_quit, then a second App.run() *)
@@ -2278,7 +2285,7 @@ Definition cx2_specs := [ {| sc_setup := [];
                                             [SIfCount 4 [SPushModal 1 0] []]]]];
                              sc_show := []; sc_closed := []; sc_input := []; sc_input_default := ([], Some RRedraw);
                              sc_prompt_none := false; sc_input_required := true; sc_no_separator := false;
-                             sc_skip_check := false; sc_pages := 0; sc_answer0 := AnsNoAttr |};
+                             sc_skip_check := false; sc_pages := 0; sc_answer0 := AnsNoAttr; sc_custom := [] |};
                           quiet [] [] ].
 Definition cx2_typed := [Some kx; Some ky].
 Definition cx2 := session cx2_specs cx2_typed [SACmds [SSchedule 0 0]; SARun; SARun].
